@@ -147,6 +147,8 @@ class MultiMatcher(mcore.Matcher):
         self._next_matcher()
 
     def children(self):
+        if not self.is_active():
+            return []
         return [self.matchers[self.current]]
 
     def _next_matcher(self):
@@ -250,9 +252,13 @@ class MultiMatcher(mcore.Matcher):
         return skipped
 
     def max_quality(self):
+        if not self.is_active():
+            return 0
         return max(m.max_quality() for m in self.matchers[self.current:])
 
     def block_quality(self):
+        if not self.is_active():
+            return 0
         return self.matchers[self.current].block_quality()
 
     def weight(self):
